@@ -70,7 +70,9 @@ def attach_options(n, kinds, prefix, sharing):
     yield from rec(0, [])
 
 
-def universe_for(n, okinds, dkinds):
+def universe_for(n, okinds, dkinds, same_names=False):
+    """same_names: every element object is called 'x' (names are free constructor arguments; validity is about
+    objects, so the verdict must not depend on them)."""
     spec = {NODES[i]: "node" for i in range(n)}
     for j in range(5):
         spec[f"L{j}"] = "link"
@@ -79,7 +81,7 @@ def universe_for(n, okinds, dkinds):
             spec[f"O{i}{k}"] = ("origin", k)
         for k in dkinds:
             spec[f"D{i}{k}"] = ("dest", k)
-    return Universe(spec)
+    return Universe(spec, namer=(lambda lab: "x") if same_names else None)
 
 
 def build(U, n, edges, links, origins, dests, history):
@@ -168,8 +170,8 @@ def check_one(U, n, edges, links, origins, dests, st: Stats, record=True):
 
 def shard_worker(item):
     st = Stats()
-    for (n, edges, okinds, dkinds, sharing) in item:
-        U = universe_for(n, okinds, dkinds)
+    for (n, edges, okinds, dkinds, sharing, same_names) in item:
+        U = universe_for(n, okinds, dkinds, same_names)
         m = len(edges)
         link_patterns = list(rgs(m)) if sharing else [tuple(range(m))]
         origin_opts = list(attach_options(n, okinds, "O", sharing))
@@ -186,7 +188,8 @@ def shard_worker(item):
                     for sig, msg, history in problems:
                         st.violation(sig, msg, {"n": n, "edges": [list(e) for e in edges], "links": list(links),
                                                 "origins": list(origins), "dests": list(dests),
-                                                "okinds": list(okinds), "dkinds": list(dkinds), "history": history})
+                                                "okinds": list(okinds), "dkinds": list(dkinds), "history": history,
+                                                "same_names": same_names})
     return st
 
 
@@ -199,7 +202,7 @@ def explore(tier, seed, nproc):
         cnt = 0
         for m in range(0, mmax + 1):
             for edges in itertools.combinations(pairs, m):
-                key = (n, edges, okinds, dkinds, sharing)
+                key = (n, edges, okinds, dkinds, sharing, False)
                 # a later tier line with a superset of kinds would repeat graphs of an earlier one;
                 # repeats are harmless (counted again) but we skip exact duplicates
                 if key in seen:
@@ -207,6 +210,10 @@ def explore(tier, seed, nproc):
                 seen.add(key)
                 items.append(key)
                 cnt += 1
+                # the same graphs once more with every element object carrying the same name (smaller bound)
+                if n <= 2 or (n == 3 and m <= 2 and len(okinds) == 2):
+                    items.append((n, edges, okinds, dkinds, sharing, True))
+                    cnt += 1
         bounds.append({"nodes": n, "max_links": mmax, "origin_kinds": okinds, "dest_kinds": dkinds,
                        "object_sharing": sharing, "edge_sets": cnt})
     # palettes: the seed rotates the order in which shards are dealt (coverage is identical)
@@ -230,7 +237,7 @@ def explore(tier, seed, nproc):
 
 
 def replay(case):
-    U = universe_for(case["n"], tuple(case["okinds"]), tuple(case["dkinds"]))
+    U = universe_for(case["n"], tuple(case["okinds"]), tuple(case["dkinds"]), bool(case.get("same_names")))
     st = Stats()
     edges = tuple(tuple(e) for e in case["edges"])
     problems, valid, bad = check_one(U, case["n"], edges, tuple(case["links"]), tuple(case["origins"]),
